@@ -401,7 +401,8 @@ fn quiet_stale(p: &Params, seed: u64) -> HistResult {
     }
     // finish all but `keep`; every finished child's retained wakers become stale
     let ids = h.held.clone();
-    let finish: Vec<u32> = ids.iter().copied().skip(keep).collect();
+    // (ordered subjects: finish the front of the queue, so that the outputs are really yielded)
+    let finish: Vec<u32> = if kind.is_ordered() { h.order.iter().copied().take(ids.len() - keep).collect() } else { ids.iter().copied().skip(keep).collect() };
     for id in &finish {
         if kind.is_merge() {
             // two gaps: open both so that the source ends
@@ -452,7 +453,8 @@ fn quiet_stale(p: &Params, seed: u64) -> HistResult {
 
 // ---------------------------------------------------------------------- oscillate (C18)
 
-fn oscillate_once(p: &Params, seed: u64, kind: Kind, ctor_cap: usize, peak: usize, cycles: usize, period: usize, partial: usize) -> (Hist, u64) {
+#[allow(clippy::too_many_arguments)]
+fn oscillate_once(p: &Params, seed: u64, kind: Kind, ctor_cap: usize, peak: usize, cycles: usize, period: usize, partial: usize, front_every: usize) -> (Hist, u64) {
     let mut h = Hist::new(seed, p.trace);
     let w = h.w.clone();
     w.fair_enabled.set(false);
@@ -465,7 +467,7 @@ fn oscillate_once(p: &Params, seed: u64, kind: Kind, ctor_cap: usize, peak: usiz
         let mut nth = 0;
         while h.held.len() < peak && !w.has_violation() {
             let id = if kind.is_merge() { h.src_with(vec![SrcStep::Gap, SrcStep::Item, SrcStep::End]) } else { h.passive_fut() };
-            let how = if kind == Kind::Fo && (nth + phase) % 5 == 0 { How::Front } else { How::Back };
+            let how = if kind == Kind::Fo && (nth + phase) % front_every == 0 { How::Front } else { How::Back };
             nth += 1;
             h.push_id(id, how);
         }
@@ -513,8 +515,11 @@ fn oscillate(p: &Params, seed: u64) -> HistResult {
     let period = r.range(2, 4);
     let partial = r.range(1, 5);
     let base_cycles = period * r.range(1, 2);
+    // FuturesOrdered: share of push_front (1 = only push_front: the head position then keeps
+    // crossing the re-base boundary in every cycle)
+    let front_every = *r.pick(&[5usize, 5, 2, 1]);
     let mult = if p.small { 3 } else { 10 };
-    let (mut h1, n1) = oscillate_once(p, seed, kind, ctor_cap, peak, base_cycles, period, partial);
+    let (mut h1, n1) = oscillate_once(p, seed, kind, ctor_cap, peak, base_cycles, period, partial, front_every);
     let v1 = h1.w.has_violation();
     if !v1 {
         h1.drain();
@@ -532,7 +537,7 @@ fn oscillate(p: &Params, seed: u64) -> HistResult {
     // with that slack and the strict "does not grow with the number processed" comparison is
     // made between 10x and 20x.
     let slack = if kind == Kind::Fo { (usize::BITS - peak.leading_zeros()) as u64 + 2 } else { 0 };
-    let (mut h2, n2) = oscillate_once(p, seed, kind, ctor_cap, peak, base_cycles * mult, period, partial);
+    let (mut h2, n2) = oscillate_once(p, seed, kind, ctor_cap, peak, base_cycles * mult, period, partial, front_every);
     if !h2.w.has_violation() && (n2 < n1 || n2 > n1 + slack) {
         h2.w.violation(
             "C18",
@@ -553,7 +558,7 @@ fn oscillate(p: &Params, seed: u64) -> HistResult {
             return finish_result(h2);
         }
         let _ = finish_result(h2);
-        let (h3, n3) = oscillate_once(p, seed, kind, ctor_cap, peak, base_cycles * mult * 2, period, partial);
+        let (h3, n3) = oscillate_once(p, seed, kind, ctor_cap, peak, base_cycles * mult * 2, period, partial, front_every);
         h2 = h3;
         if !h2.w.has_violation() && n3 != n2 {
             h2.w.violation(
